@@ -23,7 +23,7 @@ TRUSTED = [
     "Coq 8.16.1 kernel (coqc); vm_compute only in Examples and _refuted witnesses",
     "Print Assumptions: all C16 theorems closed under the global context (no axioms)",
     "translator harness/c16.py:generate (Python ast): KeyValueStorage.get/set shape, default max_memory, key_to_file_path identity, "
-    "PandasDataFrameCache.update concat order / stable sort / keep='first', TableStorage.get missing-key handling",
+    "PandasDataFrameCache.update concat order / stable sort / keep='first', TableStorage.get missing-key handling, Table.__init__ copies a given DataFrame, _write_file opens only the key's own file and renames/removes nothing",
     "extraction: ExtrOcamlBasic only; ocaml/driver.ml",
     "correspondence harness: lazy executor (a worker task runs when the caller blocks on future.result()) and a planned clock "
     "replace FileCache.executor and file_cache.time; a share of the sequences runs on the real ThreadPoolExecutor; file_cache.heapq is wrapped to record which item each heappop returns (an input of the model)",
@@ -141,6 +141,42 @@ def generate():
             return True
         raise ShapeError("not-cached branch not recognised: %r" % body)
     flag("ufm_uncached_purges", uncached_purges)
+
+    def write_targets_only():
+        m = astlib.module("klongpy/db/file_cache.py")
+        fn = astlib.find_func(astlib.find_class(m, "FileCache"), "_write_file")
+        opens = astlib.calls_in(fn, "open")
+        opens = [c for c in opens if isinstance(c.func, ast.Name)]
+        if len(opens) != 1:
+            raise ShapeError("_write_file: exactly one open(...) expected")
+        target = ast.unparse(opens[0].args[0])
+        if target not in ("os.path.join(self.root_path, file_name)", "write_fname"):
+            raise ShapeError("_write_file opens %s, not the file of the key" % target)
+        if target == "write_fname":
+            asg = [n for n in ast.walk(fn) if isinstance(n, ast.Assign) and ast.unparse(n.targets[0]) == "write_fname"]
+            if len(asg) != 1 or ast.unparse(asg[0].value) != "os.path.join(self.root_path, file_name)":
+                raise ShapeError("write_fname is not os.path.join(self.root_path, file_name)")
+        for bad in ("replace", "rename", "renames", "remove", "unlink", "rmtree", "move", "copy", "copyfile", "link", "symlink", "truncate"):
+            if astlib.calls_in(fn, bad):
+                raise ShapeError("_write_file calls %s" % bad)
+        return True
+    flag("write_file_opens_target_only", write_targets_only)
+
+    def table_copy():
+        m = astlib.module("klongpy/db/sys_fn_db.py")
+        init = astlib.find_func(astlib.find_class(m, "Table"), "__init__")
+        ifs = [n for n in init.body if isinstance(n, ast.If)]
+        if not ifs or ast.unparse(ifs[0].test) != "isinstance(data, pd.DataFrame)":
+            raise ShapeError("Table.__init__: first branch is not isinstance(data, pd.DataFrame)")
+        asg = [ast.unparse(n) for n in ifs[0].body if isinstance(n, ast.Assign) and ast.unparse(n.targets[0]) == "self._df"]
+        if len(asg) != 1:
+            raise ShapeError("Table.__init__: one assignment to self._df expected in the DataFrame branch")
+        cls = astlib.find_class(kvs, "TableStorage")
+        ret = [ast.unparse(n.value) for n in ast.walk(astlib.find_func(cls, "get")) if isinstance(n, ast.Return)]
+        if ret != ["KLONG_UNDEFINED if df is None else Table(df)"]:
+            raise ShapeError("TableStorage.get return not recognised: %r" % ret)
+        return asg[0] in ("self._df = data.copy()", "self._df = data.copy(deep=True)")
+    flag("table_get_returns_copy", table_copy)
 
     df = astlib.module("klongpy/db/df_cache.py")
 
@@ -269,12 +305,24 @@ class HeapqProxy:
         return x
 
 
+_COMP = {}
+_COMP_BACK = {}
+
+
+def comp_id(c):
+    """path component -> integer (injective; the model's names are lists of component ids)"""
+    if c not in _COMP:
+        _COMP[c] = len(_COMP) + 1
+        _COMP_BACK[_COMP[c]] = c
+    return _COMP[c]
+
+
 def key_to_name(k):
-    return [ord(c) for c in k.split("/")]
+    return [comp_id(c) for c in k.split("/")]
 
 
 def name_to_key(n):
-    return "/".join(chr(c) for c in n)
+    return "/".join(_COMP_BACK.get(c, "?%d" % c) for c in n)
 
 
 class Interner:
@@ -315,10 +363,10 @@ def snapshot(fc, root, intern, content_key, file_key):
         rel = os.path.relpath(dp, root)
         pre = [] if rel == "." else rel.split(os.sep)
         for d in dns:
-            disk.append([[ord(c) for c in pre + [d]] if all(len(x) == 1 for x in pre + [d]) else [-1], "d", 0])
+            disk.append([[comp_id(c) for c in pre + [d]], "d", 0])
         for f in fns:
             with open(os.path.join(dp, f), "rb") as fh:
-                disk.append([[ord(c) for c in pre + [f]], "f", file_key(fh.read())])
+                disk.append([[comp_id(c) for c in pre + [f]], "f", file_key(fh.read())])
     disk.sort(key=lambda e: e[0])
     return [int(fc.current_memory_usage), ents, heap, disk, int(fc.max_memory)]
 
@@ -364,6 +412,8 @@ def prefix_conflict(keys):
 
 FREE_KEYS = ["a", "b", "c", "d", "e/f", "e/g", "h/i/j"]
 CONFLICT_KEYS = ["a/x", "e", "h/i", "e/f/k"]
+# distinct keys that differ only by a common scratch suffix (a store must not use names derived from a key)
+SCRATCH_SUFFIXES = [".tmp", ".bak", "~", ".new", ".lock", ".part", ".swp", ".old", ".tmp~", "-journal"]
 
 
 def gen_sequence(rng, nops, lens, conflict):
@@ -373,6 +423,10 @@ def gen_sequence(rng, nops, lens, conflict):
     keys = rng.sample(FREE_KEYS, rng.randint(2, 5))
     if conflict:
         keys += rng.sample(CONFLICT_KEYS, rng.randint(1, 2))
+    if rng.random() < 0.4:
+        # siblings "<key><suffix>" of one or two of the keys (flat and nested), put FIRST so that they tend to be set first
+        sib = [k + rng.choice(SCRATCH_SUFFIXES if rng.random() < 0.5 else SCRATCH_SUFFIXES[:1]) for k in rng.sample(keys[:5], min(2, len(keys)))]
+        keys = sib + keys
     pl = sorted(lens[i] for i in pool)
     kind = rng.choice(["one", "one+", "two", "some", "all", "default"])
     mx = {"one": pl[-1], "one+": pl[-1] + pl[0] - 1 if pl[0] > 1 else pl[-1], "two": pl[-1] + pl[0],
@@ -400,7 +454,7 @@ def gen_sequence(rng, nops, lens, conflict):
             used.add(key)
         elif r < 0.80:
             if rng.random() < 0.2:
-                key = rng.choice([x for x in FREE_KEYS + (CONFLICT_KEYS if conflict else []) if x not in used] or keys)
+                key = rng.choice([x for x in keys + FREE_KEYS + (CONFLICT_KEYS if conflict else []) if x not in used] or keys)
             else:
                 key = rng.choice(keys)
             ops.append({"op": "get", "key": key, "t": t})
@@ -847,7 +901,7 @@ def check_tables(chk, rng, workdir, dirsize):
     clock = PlannedClock()
     orig_time = fcm.time
     fcm.time = clock
-    nseq = 300 if chk.tier == "quick" else 3000
+    nseq = 400 if chk.tier == "quick" else 3000
     keys = ["p", "q", "r/s", "r/t"]
     bad_prop = bad_corr = None
     reqs, runs = [], []
@@ -868,12 +922,15 @@ def check_tables(chk, rng, workdir, dirsize):
                 mx = rng.choice([1500, 2500, 4000])
             ts = open_ts(root, mx)
             d = {}
+            fetched = {}          # key -> Table objects handed out by gets of the CURRENT store object
+            seq_keys = keys + (["p.tmp", "r/s.tmp", "q~"] if rng.random() < 0.3 else [])
+            base_cols = ["v", "s"] if with_str else ["v"]
             ops, recs = [], []
             t = 10
             serial = 0
             for i in range(rng.randint(2, 9 if chk.tier == "quick" else 18)):
                 t += 2
-                key = rng.choice(keys)
+                key = rng.choice(seq_keys)
                 r = rng.random()
                 res = None
                 fail = None
@@ -896,7 +953,7 @@ def check_tables(chk, rng, workdir, dirsize):
                         k('ts,"%s",,tb' % key)
                         d[key] = py_merge(d.get(key, []), rows)
                         res = ["set"]
-                    elif r < 0.85:
+                    elif r < 0.76:
                         clock.plan([t])
                         ops.append(["get", key_to_name(key), t])
                         k["ts"] = ts
@@ -907,13 +964,42 @@ def check_tables(chk, rng, workdir, dirsize):
                                 fail = "table %s reads as :undefined after a set" % key
                         else:
                             gdf = got.get_dataframe()
-                            rows = [(int(a), int(b)) for a, b in zip(gdf.index.tolist(), gdf["v"].tolist())]
+                            shape = (list(gdf.columns), list(gdf.index.names))
+                            if "v" in gdf.columns and shape == (base_cols, [None]):
+                                rows = [(int(a), int(b)) for a, b in zip(gdf.index.tolist(), gdf["v"].tolist())]
+                            else:
+                                rows = [(-1, -1)]
                             res = ["val"] + [[a, b] for a, b in rows]
+                            fetched.setdefault(key, []).append(got)
                             if key not in d:
                                 fail = "never-set table %s reads as a table" % key
+                            elif shape != (base_cols, [None]):
+                                fail = "table %s: a get returned columns %r / index %r, the latest set had columns %r and a plain index (a fetched table was changed locally, nothing was stored)" % (
+                                    key, shape[0], shape[1], base_cols)
                             elif rows != d[key]:
                                 fail = "table %s: stored rows differ from the documented merge (existing rows win on equal index): got %s, want %s" % (
                                     key, rows[:12], d[key][:12])
+                    elif r < 0.92 and fetched:
+                        # the caller changes a table it fetched earlier, in place, and does NOT store it back
+                        import numpy as np
+                        mk = rng.choice(sorted(fetched))
+                        tb = rng.choice(fetched[mk])
+                        how = rng.choice(["add-column", "set-index", "insert-row", "overwrite-column"])
+                        try:
+                            if how == "add-column":
+                                tb.set("c", np.arange(len(tb.get_dataframe())))
+                            elif how == "overwrite-column":
+                                tb.set("v", np.zeros(len(tb.get_dataframe()), dtype=int) - 7)
+                            elif how == "set-index":
+                                tb.set_index(["v"])
+                            else:
+                                tb.insert(np.array([999] + (["zz"] if with_str else []), dtype=object))
+                                len(tb)
+                        except Exception:
+                            pass
+                        ops.append(["modify", key_to_name(mk), ["rows"] + [[a, b] for a, b in d.get(mk, [])]])
+                        res = ["none"]
+                        chk.count("table_local_modifications")
                     elif r < 0.95:
                         ts.cache.unload_file(key)
                         ops.append(["unload", key_to_name(key)])
@@ -922,6 +1008,7 @@ def check_tables(chk, rng, workdir, dirsize):
                         nmx = mx
                         ops.append(["reopen", nmx])
                         ts = open_ts(root, nmx)
+                        fetched = {}
                         res = ["none"]
                 except BaseException as e:  # noqa
                     if isinstance(e, (KeyboardInterrupt, SystemExit)):
